@@ -62,6 +62,7 @@ type frame struct {
 	phiEnv  map[*ssa.BasicBlock]map[string]Val
 	bindings []ssa.Value
 	specMode bool
+	privAllocs []privAlloc
 	s2a      map[ssa.Value]Val
 	matz     []matRec
 	letCache map[string]sval
@@ -652,6 +653,9 @@ func (f *frame) step(in ssa.Instruction, st State, reach string) (State, bool) {
 		t := deref(x.Type())
 		l := locOfRef(r, t)
 		st.heap = c.store(st.heap, l, c.zeroVal(t))
+		if !allocEscapes(x, 0) {
+			f.privAllocs = append(f.privAllocs, privAlloc{v: x, loc: l})
+		}
 		return st, false
 	case *ssa.FieldAddr:
 		base := f.locOf(x.X)
@@ -931,4 +935,70 @@ func (c *Ctx) assumeSealed(v Val, t types.Type, cond string) {
 		alts = append(alts, eq(v[0], num(int64(id))))
 	}
 	c.assume(cond, or(alts...))
+}
+
+type privAlloc struct {
+	v   *ssa.Alloc
+	loc *Loc
+}
+
+// allocEscapes: may the address of this local variable be known to code outside the current
+// function body before a deferred closure runs? Allowed uses: load/store through it, field and
+// element addressing (recursively), and capture by a closure that is only deferred.
+func allocEscapes(v ssa.Value, depth int) bool {
+	if depth > 6 {
+		return true
+	}
+	refs := v.Referrers()
+	if refs == nil {
+		return true
+	}
+	for _, r := range *refs {
+		switch x := r.(type) {
+		case *ssa.UnOp:
+			// load
+		case *ssa.Store:
+			if x.Val == v {
+				return true
+			}
+		case *ssa.FieldAddr:
+			if allocEscapes(x, depth+1) {
+				return true
+			}
+		case *ssa.IndexAddr:
+			if allocEscapes(x, depth+1) {
+				return true
+			}
+		case *ssa.MakeClosure:
+			crefs := x.Referrers()
+			if crefs == nil {
+				return true
+			}
+			for _, cr := range *crefs {
+				if d, ok := cr.(*ssa.Defer); !ok || d.Call.Value != ssa.Value(x) {
+					return true
+				}
+			}
+		case *ssa.DebugRef:
+		default:
+			return true
+		}
+	}
+	return false
+}
+
+// restoreLocals: after a call whose effect is an array-level havoc, the private local variables
+// of the current function (addresses never handed out) keep their contents.
+func (f *frame) restoreLocals(old, nh *Heap) *Heap {
+	c := f.c
+	for _, pa := range f.privAllocs {
+		for _, acc := range pa.loc.accs {
+			ms := memSort(acc.leaf.Sort, len(acc.idx))
+			if c.heapGet(old, acc.mem, ms) == c.heapGet(nh, acc.mem, ms) {
+				continue
+			}
+			nh = c.storeAcc(nh, acc, c.loadAcc(old, acc))
+		}
+	}
+	return nh
 }
